@@ -231,10 +231,13 @@ bool File::copy(const String& src, const String& destination, bool failIfExists)
     if(fd == -1)
       return false;
     off64_t size = lseek(fd, 0, SEEK_END);
-    if(size < 0)
+    if(size < 0 || lseek(fd, 0, SEEK_SET) < 0)
+    {
+      int err = errno;
+      ::close(fd);
+      errno = err;
       return false;
-    if(lseek(fd, 0, SEEK_SET) < 0)
-      return false;
+    }
     bool created = true; // try to create the destination first, so that a failed copy can tell whether the file is ours to remove
     int dest = ::open(destination, O_CREAT | O_EXCL | O_CLOEXEC | O_TRUNC | O_WRONLY, S_IRUSR | S_IWUSR | S_IRGRP | S_IROTH);
     if(dest == -1 && !failIfExists && errno == EEXIST)
